@@ -30,7 +30,7 @@ Inductive err :=
 | ETimeMismatch   (* "Axis type 'n' found in input and output but they do not appear to match" *)
 | ETimeCross      (* "Axis type 'n' in input matches axis type 'm' in output" and the converse *)
 | EToffset        (* 'Time input and output do not match' *)
-| ECrash          (* not a NiftiError: `corr_out - 3` with corr_out None raises TypeError *)
+| ECrash          (* not a NiftiError: a Python TypeError/IndexError; the current code has no such path (theorem) *)
 | ENdim           (* nifti2nipy: fewer than 3 dimensions *)
 | EOutside.       (* outside the modelled island (see report): the code's behaviour is not claimed *)
 Inductive res (A : Type) := Ok (a : A) | Err (e : err).
@@ -122,7 +122,7 @@ Variable V : Type.
 
 (* a nipy Image with an AffineTransform coordmap: input names, output names,
    matrix part (rows = outputs), translation, array shape, data as a function
-   of the index, and the `toffset` of metadata['header'] (0 when there is none) *)
+   of the index, and the `toffset` of metadata['header'] (0 when there is none; nipy2nifti must ignore it) *)
 Record img := { inn : list string; outn : list string; lin : list (list Q); trn : list Q;
                 shp : list nat; dat : list nat -> V; meta_toffset : Q }.
 
@@ -232,7 +232,7 @@ Fixpoint ftl_loop (names : list string) (ci co : list (option string)) (ornt : l
         end
       | None =>
         match corr_out with
-        | None => Err ECrash                       (* non_space_onames[None - 3] *)
+        | None => Ok (Some (in_ax, None, name))    (* `if corr_out is None: return (in_ax, None, name)` *)
         | Some c =>
           if Nat.ltb c 3 || Nat.leb (length co) (c - 3) then Err EOutside   (* negative / out-of-range index *)
           else match nth (c - 3) co None with
@@ -336,7 +336,7 @@ Definition nipy2nifti_xyz (strict fix0 : bool) (O : orac) (im : img) : res nimg 
       let mk tu pix toff shape d :=
         {| h_aff := xa; h_sform := label; h_qform := label; h_dim_info := dim_info; h_tunits := tu;
            h_pixdim := pix; h_toffset := toff; h_shape := shape; h_dat := d |} in
-      if Nat.eqb n_ns 0 then Ok (mk "unknown" [] (meta_toffset im) (shp im) (dat im))
+      if Nat.eqb n_ns 0 then Ok (mk "unknown" [] 0%Q (shp im) (dat im))
       else if Nat.ltb max_ns n_ns then Err ETooMany
       else
         bind (col_norms (map (fun j => column 0%Q j (nsp_block L)) (seq 0 n_ns))) (fun pix =>
@@ -344,14 +344,14 @@ Definition nipy2nifti_xyz (strict fix0 : bool) (O : orac) (im : img) : res nimg 
         match tl with
         | None =>
           if Nat.eqb n_ns full_ns then Err ETooMany
-          else Ok (mk "unknown" (0%Q :: pix) (meta_toffset im)
+          else Ok (mk "unknown" (0%Q :: pix) 0%Q
                       (firstn 3 (shp im) ++ 1 :: skipn 3 (shp im))
                       (fun idx => dat im (firstn 3 idx ++ skipn 4 idx)))
         | Some (in_ax, out_ax, name) =>
           let units := match assoc name time_like_axes with Some au => snd au | None => "unknown" end in
           bind (if String.eqb name "t" && negb (forallb is0 (skipn 3 (trn im)))
                 then match out_ax with None => Err EToffset | Some o => Ok (nth o (trn im) 0%Q) end
-                else Ok (meta_toffset im)) (fun toff =>
+                else Ok 0%Q) (fun toff =>       (* hdr['toffset'] = 0 unless set from the coordmap *)
           if Nat.eqb in_ax 3 then Ok (mk units pix toff (shp im) (dat im))
           else if Nat.ltb in_ax 3 then Err EOutside
           else
